@@ -11,20 +11,20 @@ CLAIMED = {
 
  "C18": {
   "technique": "stress exploration: generated filter sets executed concurrently (barrier-released threads, shared and per-thread filters/contexts) against a sequential baseline and the reference evaluator; fresh child processes racing first use of lazily initialised global state",
-  "text": "Exploration: per case one generated scheme with 19 template filters (regex, SIMD contains, in-sets, lists, wildcard, map-each, plain and mapped calls, xor chains) plus generated filters and 10-16 contexts; after a sequential gate (engine = reference evaluator, repeat and recompile agree) T = 2, 4, 16, 64 barrier-released threads execute every (filter, context) pair repeatedly on shared Arc<Filter> / shared contexts as well as per-thread recompilations and cloned contexts, in walk and same-filter burst patterns; every result must equal the baseline; in-flight counters measure real overlap; fresh child processes (AVX2 on and off) race the first contains compile and first regex execution on 16 threads and must reproduce the sequential digest; filters over equal-length patterns under every byte-string operator are compiled, executed and dropped in rotation on 1..8 threads and every result equals the reference.",
+  "text": "Exploration: per case one generated scheme with 19 template filters (regex, SIMD contains, in-sets, lists, wildcard, map-each, plain and mapped calls, xor chains) plus generated filters and 10-16 contexts; after a sequential gate (engine = reference evaluator, repeat and recompile agree) T = 2, 4, 16, 64 barrier-released threads execute every (filter, context) pair repeatedly on shared Arc<Filter> / shared contexts as well as per-thread recompilations and cloned contexts, in walk and same-filter burst patterns; every result must equal the baseline; in-flight counters measure real overlap; fresh child processes (AVX2 on and off) race the first contains compile and first regex execution on 16 threads and must reproduce the sequential digest; filters over equal-length patterns under every byte-string operator are compiled, executed and dropped in rotation on 1..8 threads and every result equals the reference. Sub-check faults: executions that panic inside a user-supplied function (caught by the caller) interleaved with checked executions of the same shared filters on 1/2/4 threads.",
   "note": "Generated search cannot choose thread schedules: this is stress exploration of the schedules that occur; no ThreadSanitizer build; races that change no result, crash nothing and hang nothing are invisible.",
   "ref": "DESIGN.md section 3, C18",
  },
 
  "C11": {
   "technique": "property-based testing of generated regexes against a position-set reference matcher + exhaustive wildcard patterns against a DP reference + metamorphic size-limit checks",
-  "text": "Exploration: regexes from a subset grammar (literals incl. escapes and \\xHH, ., classes with ranges/negation/quotes, ?*+, alternation, groups, ^ $ \\A \\z, word assertions \\b \\B \\< \\>, \\d \\w \\s and negations, counted and lazy repetition, (?ism:) groups) written quoted and raw, at top level and nested in parentheses / double negation / an or-operand: the AST carries exactly the pattern and the match result equals an independent position-set matcher on ~13 values each (non-UTF-8, newlines, case flips, empty); every wildcard pattern over {a,B,*,\\,?} up to length 6 (quick) / 8 (thorough) in quoted/escaped/raw forms, both operators, star limits 0..4: rejected exactly for invalid escapes, trailing backslash, ** and too many stars, accepted ones agree with a DP matcher (ASCII case folding iff not strict); regex size limits behave monotonically and independently of what was parsed before; 360 regex idioms (anchors x bodies x flag groups) on values with line breaks; wildcard values up to 1.5 KB with literals straddling offsets 256/512.",
+  "text": "Exploration: regexes from a subset grammar (literals incl. escapes and \\xHH, ., classes with ranges/negation/quotes, ?*+, alternation, groups, ^ $ \\A \\z, word assertions \\b \\B \\< \\>, \\d \\w \\s and negations, counted and lazy repetition, (?ism:) groups) written quoted and raw, at top level and nested in parentheses / double negation / an or-operand: the AST carries exactly the pattern and the match result equals an independent position-set matcher on ~13 values each (non-UTF-8, newlines, case flips, empty); every wildcard pattern over {a,B,*,\\,?} up to length 6 (quick) / 8 (thorough) in quoted/escaped/raw forms, both operators, star limits 0..4: rejected exactly for invalid escapes, trailing backslash, ** and too many stars, accepted ones agree with a DP matcher (ASCII case folding iff not strict); regex size limits behave monotonically and independently of what was parsed before; 360 regex idioms (anchors x bodies x flag groups) on values with line breaks; wildcard values up to 1.5 KB with literals straddling offsets 256/512. Non-ASCII characters are also written as themselves in patterns (matched as their UTF-8 bytes).",
   "note": "Nested character classes and a leading ] in a class are not generated (the quoted scanner's treatment is unspecified); size thresholds are only checked for monotonicity, default-accepts and one impossibility bound.",
   "ref": "DESIGN.md section 3, C11",
  },
  "C13": {
   "technique": "exhaustive enumeration of nesting shapes x limits + random deep shapes + child-process stack-budget runs",
-  "text": "Exploration: every sequence over {parenthesis, not, any/all, call} up to length 6 (quick) / 9 (thorough), typed through four adapter functions, in 4 spellings, and shapes with the deep path in each call-argument / quantifier / chain-operand position, against limits 0..8: accepted exactly when the nesting is within the limit (otherwise rejected, with the nesting error unless a hex-like function name routes the argument through the parser's fallback); random shapes at depth d-1, d, d+1 for d in {16, 64, 128 default, 129, 200}, also through parse_value; calls with an empty argument list as innermost construct; one parser object fed many inputs in a row (malformed and over-limit ones in between must not change later verdicts); accepted filters at the limit are parsed, serialised, hashed, cloned, compiled, executed and dropped on a thread with 64 KiB of stack per level in a child process.",
+  "text": "Exploration: every sequence over {parenthesis, not, any/all, call} up to length 6 (quick) / 9 (thorough), typed through four adapter functions, in 4 spellings, and shapes with the deep path in each call-argument / quantifier / chain-operand position, against limits 0..8: accepted exactly when the nesting is within the limit (otherwise rejected, with the nesting error unless a hex-like function name routes the argument through the parser's fallback); random shapes at depth d-1, d, d+1 for d in {16, 64, 128 default, 129, 200}, also through parse_value; calls with an empty argument list as innermost construct; one parser object fed many inputs in a row (malformed and over-limit ones in between must not change later verdicts); accepted filters at the limit are parsed, serialised, hashed, cloned, compiled, executed and dropped on a thread with 64 KiB of stack per level in a child process. Sub-check far: constructs repeated to nesting far over the limit (excess of 255..257, 2^16-1..2^16+1, 2^17, 3*2^16) must be rejected (child process).",
   "note": "Stack budget 64 KiB x (d+8) has > 20x headroom over the measured need in the harness profile; an abnormal child exit is a violation.",
   "ref": "DESIGN.md section 3, C13",
  },
@@ -37,7 +37,7 @@ CLAIMED = {
  },
  "C20": {
   "technique": "differential property testing (C API called from the rlib vs Rust API on the same scheme) + failure-sequence histories + interleaved threads + child process for panics",
-  "text": "Exploration: schemes are built through the C constructors (the same registrations, incl. names with NUL / blanks / non-ASCII / invalid UTF-8, give the same answers, errors and scheme as the Rust builder); generated filters (well-typed, mutated, NUL-containing, invalid UTF-8) give the same parse outcome with last-error = ParseError text (NUL -> 0x1A), the same AST JSON, equal hashes for equal JSON, the same uses/uses_list, the same context serialisation (typed setters and JSON setter) and the same match results (also vs the reference evaluator); histories of failing/succeeding/clear calls over 12 kinds of failures check that every failure sets a well-formed, NUL-terminated last error with no interior NUL; two threads interleaved step by step see exactly the errors they see alone; filters at the regex-size and nesting limits give the same verdicts through both APIs; contexts filled in two steps keep what was there; a child process (hook installed before or after enabling) checks Status::Panic for a user function panicking at parse, compile and match time - also twice from one source line with different payloads - and that the next call works.",
+  "text": "Exploration: schemes are built through the C constructors (the same registrations, incl. names with NUL / blanks / non-ASCII / invalid UTF-8, give the same answers, errors and scheme as the Rust builder); generated filters (well-typed, mutated, NUL-containing, invalid UTF-8) give the same parse outcome with last-error = ParseError text (NUL -> 0x1A), the same AST JSON, equal hashes for equal JSON, the same uses/uses_list, the same context serialisation (typed setters and JSON setter) and the same match results (also vs the reference evaluator); histories of failing/succeeding/clear calls over 12 kinds of failures check that every failure sets a well-formed, NUL-terminated last error with no interior NUL; two threads interleaved step by step see exactly the errors they see alone; filters at the regex-size and nesting limits give the same verdicts through both APIs; contexts filled in two steps keep what was there; a child process (hook installed before or after enabling) checks Status::Panic for a user function panicking at parse, compile and match time - also twice from one source line with different payloads - and that the next call works. The builder differential includes types of up to 32 layers, always/never lists and type JSON through the C API.",
   "note": "The extern C functions are called as Rust functions from the rlib; an abnormal child exit counts as a panic crossing the C boundary.",
   "ref": "DESIGN.md section 3, C20",
  },
@@ -89,7 +89,7 @@ CLAIMED = {
  },
  "C07": {
   "technique": "metamorphic property-based testing: alias/whitespace re-renderings, redundant parentheses, single structural mutations; canonical JSON from the model tree",
-  "text": "Exploration: each generated well-typed filter is printed twice with independent alias and whitespace choices: ASTs equal, JSON byte-identical and equal to the canonical document computed from the model, C-API hash and std Hash equal, serialisation deterministic; redundant parentheses leave JSON/hash unchanged; one structural mutation must change both JSON and AST.",
+  "text": "Exploration: each generated well-typed filter is printed twice with independent alias and whitespace choices: ASTs equal, JSON byte-identical and equal to the canonical document computed from the model, C-API hash and std Hash equal, serialisation deterministic; redundant parentheses leave JSON/hash unchanged; one structural mutation must change both JSON and AST. Literal mutants include letter case, low bit, sign, bit 32, top bit, trailing NUL, IPv4 vs mapped IPv6, and edits of wildcard / regex patterns.",
   "note": "Hash inequality is not asserted; literal forms (quoted vs raw) are part of the structure and are kept identical between the two renderings.",
   "ref": "DESIGN.md section 3, C07",
  },
@@ -102,7 +102,7 @@ CLAIMED = {
 
  "C05": {
   "technique": "fuzzing: proptest string/token/mutation generators + stress inputs in child processes + libFuzzer (thorough), oracle inside the target",
-  "text": "Exploration: random Unicode strings, token soups over the language alphabet, string literals assembled from escapes, multi-byte characters and invalid-UTF-8 bytes in every literal slot (map key, right-hand sides, set member, regex, wildcard, function argument), valid generated filters with 1-4 character/token edits, and 1e5-long chains / 1e5-deep nestings (child process, 8 MiB stack) are fed to Scheme::parse and Scheme::parse_value; every outcome must be an AST (serialisable) or an error whose line/column/caret range lie inside the input line; panics, aborts and stack overflows are violations. A function definition counts its parameter checks while call nests of depth 4/8/16 are parsed (accepted and rejected ones): growth by more than a factor 200 means work doubling per level, i.e. no termination in practice at depth 128. The thorough tier adds 8 coverage-guided libFuzzer jobs with the same oracle inside the target.",
+  "text": "Exploration: random Unicode strings, token soups over the language alphabet, string literals assembled from escapes, multi-byte characters and invalid-UTF-8 bytes in every literal slot (map key, right-hand sides, set member, regex, wildcard, function argument), valid generated filters with 1-4 character/token edits, and 1e5-long chains / 1e5-deep nestings (child process, 8 MiB stack) are fed to Scheme::parse and Scheme::parse_value; every outcome must be an AST (serialisable) or an error whose line/column/caret range lie inside the input line; panics, aborts and stack overflows are violations. A function definition counts its parameter checks while call nests of depth 4/8/16 are parsed (accepted and rejected ones): growth by more than a factor 200 means work doubling per level, i.e. no termination in practice at depth 128. The thorough tier adds 8 coverage-guided libFuzzer jobs with the same oracle inside the target. Sub-checks illtyped / matrix: grammatical filters made ill-typed by structural mutations (wrong index kind, field of another type, [*] moved, other literal kind), and every text of C04's typing matrices, through the same oracle.",
   "note": "Stack budget 8 MiB in the harness profile; a hang is reported as inconclusive (watchdog), not as a violation; libFuzzer needs the nightly toolchain (if its build fails the campaign is skipped and the evidence says so).",
   "ref": "DESIGN.md section 3, C05",
  },
@@ -128,7 +128,7 @@ CLAIMED = {
 
  "C01": {
   "technique": "property-based testing: exhaustive operator table + proptest-generated filters against a reference evaluator",
-  "text": "Exploration: every cell of the (type x operator x boundary lhs incl. absent x boundary rhs x nil_ne x optional) table is executed, plus grammar-directed random well-typed scalar filters (precedence chains, not, parentheses) on 8 generated contexts each; engine result and AST JSON compared with an independent reference evaluator / canonical JSON. Holds on everything explored; not a proof.",
+  "text": "Exploration: every cell of the (type x operator x boundary lhs incl. absent x boundary rhs x nil_ne x optional) table is executed, plus grammar-directed random well-typed scalar filters (precedence chains, not, parentheses) on 8 generated contexts each; engine result and AST JSON compared with an independent reference evaluator / canonical JSON. Holds on everything explored; not a proof. Sub-check ruleset: rule-set idioms (one field tested 2-7 times in a chain against 2-5 literals, negated members and groups, two groups joined by another operator, fields absent, both nil-not-equal settings).",
   "note": "Trusts the reference evaluator (harness/src/eval.rs), the printer and proptest's RNG; mandatory fields always set.",
   "ref": "DESIGN.md section 3, C01",
  },
